@@ -28,7 +28,6 @@ $(BUILD)/repo/%.o: $(REPO)/bluetoe/link_layer/%.cpp
 	@mkdir -p $(dir $@)
 	$(CXX) $(CXXFLAGS) $(INCLUDES) -MMD -c $< -o $@
 
-$(BUILD)/stack_sim.o: harness/stack_world.hpp harness/sim_radio.hpp
 
 $(BUILD)/%.o: harness/%.cpp sim/sim.hpp
 	@mkdir -p $(dir $@)
@@ -87,6 +86,11 @@ $(BUILD)/nrf_sim.o: harness/nrf_sim.cpp harness/nrf_front.hpp sim/sim.hpp shim/n
 
 # ---- pdu_sim: configurations 10..19 run the connection event half of the same front end
 $(BUILD)/pdu_sim.o: harness/pdu_sim.cpp harness/nrf_front.hpp sim/sim.hpp shim/nrf.h
+	@mkdir -p $(dir $@)
+	$(CXX) $(CXXFLAGS) $(SM_INCLUDES) -MMD -c $< -o $@
+
+# ---- stack_sim: configurations 7..11 put the same front end between link layer and world (harness/nrf_bridge.hpp)
+$(BUILD)/stack_sim.o: harness/stack_sim.cpp harness/stack_world.hpp harness/sim_radio.hpp harness/nrf_bridge.hpp sim/sim.hpp shim/nrf.h
 	@mkdir -p $(dir $@)
 	$(CXX) $(CXXFLAGS) $(SM_INCLUDES) -MMD -c $< -o $@
 
